@@ -727,6 +727,32 @@ def shrink_case(case, fam, budget=2.0):
 
 # ------------------------------------------------------------------------------------------------ known-family pumps
 PUMPS += [
+    # term count of one value (space / comma / slash separated), statements per block, blocks per sheet
+    ("value-terms-space", lambda n: "a{b:" + "x " * (n * 8) + "}"),
+    ("value-terms-comma", lambda n: "a{b:" + "x," * (n * 8) + "x}"),
+    ("value-terms-slash", lambda n: "a{b:" + "1/" * (n * 8) + "1}"),
+    ("value-terms-mixed", lambda n: "a{transition:" + "x 1s ease, " * (n * 4) + "y}"),
+    ("value-strings", lambda n: "a{content:" + '"s" ' * (n * 8) + "}"),
+    ("value-urls", lambda n: "a{background:" + "url(x)," * (n * 8) + "url(y)}"),
+    ("value-functions", lambda n: "a{b:" + "f(1) " * (n * 8) + "}"),
+    ("declarations", lambda n: "a{" + "b:c;" * (n * 8) + "}"),
+    ("rules", lambda n: "a{b:c}" * (n * 8)),
+    ("variables-decls", lambda n: "@variables{" + "/*c*/a:1;" * n + "}"),
+    ("media-queries-many", lambda n: "@media " + "a," * (n * 8) + "b{}"),
+    ("selector-compound", lambda n: "a" + ".b" * (n * 8) + "{}"),
+    # upper-case / mixed-case hex escapes (the escape macro excludes a-f only)
+    ("url-upper-hex-escapes", lambda n: "a{b:url(" + "\\AB" * n + '"x'),
+    ("string-upper-hex-escapes", lambda n: '"' + "\\AB" * n),
+    ("ident-upper-hex-escapes", lambda n: "\\AB" * n + "{}"),
+    ("string-hex-escapes-blank", lambda n: '"' + "\\11 " * n),
+    # nesting of unknown rules / blocks
+    ("nested-unknown-rules", lambda n: "@x {" * n + "}" * n),
+    ("nested-unknown-open", lambda n: "@x {" * n),
+    ("nested-unknown-brackets", lambda n: "@x " + "[" * n + "]" * n + ";"),
+    ("nested-unknown-parens", lambda n: "@x " + "(" * n + ")" * n + ";"),
+    ("nested-media-closed", lambda n: "@media a{" * n + "}" * n),
+    ("nested-blocks-in-decl", lambda n: "a{b:" + "{" * n + "}" * n + "}"),
+    ("nested-unknown-in-decl", lambda n: "a{" + "@x {" * n + "}" * n + "}"),
     ("string-hex-escapes", lambda n: '"' + "\\11" * n),
     ("url-hex-escapes", lambda n: "a{x:url(" + "\\11" * n),
     ("voice-family-idents", lambda n: "a{voice-family:" + "ab" * n + ', "x" !}'),
